@@ -22,7 +22,7 @@ WRAPFLAGS_D := $(WRAP_D:%=-Wl,--wrap=%)
 
 .PHONY: all build gen conf clean
 all: build
-build: gen $(B)/simd $(B)/vq $(B)/simp $(B)/uidcoll.json conf
+build: gen $(B)/simd $(B)/vq $(B)/simp $(B)/simx $(B)/uidcoll.json conf
 
 gen:
 	@mkdir -p $(B)/lib
@@ -45,6 +45,17 @@ $(B)/simd.o: /verif/sim/simd.c /verif/sim/simcommon.h /verif/sim/evmodel.h $(SRC
 
 $(B)/simd: $(B)/simd.o $(B)/evmodel.o $(B)/logger.o $(LIBOBJ)
 	@$(CC) $(CFLAGS) $(WRAPFLAGS_D) -o $@ $^ -lm
+
+WRAP_X := time clock_gettime alarm sigaction kill getrusage setuid setgid getpwuid getpwnam getgrnam \
+	chdir open mkstemp unlink read write sendfile splice pipe close posix_spawn \
+	posix_spawn_file_actions_adddup2 waitpid
+WRAPFLAGS_X := $(WRAP_X:%=-Wl,--wrap=%)
+
+$(B)/simx.o: /verif/sim/simx.c /verif/sim/simcommon.h /verif/sim/evmodel.h $(SRC)/echsx.c $(SRC)/echsx.yucc $(wildcard $(SRC)/*.h)
+	@$(CC) $(CPPFLAGS) -DHAVE_VERSION_H $(CFLAGS) -c -o $@ $<
+
+$(B)/simx: $(B)/simx.o $(B)/evmodel.o $(B)/logger.o $(B)/version.o $(LIBOBJ)
+	@$(CC) $(CFLAGS) $(WRAPFLAGS_X) -o $@ $^ -lm
 
 $(B)/simp.o: /verif/sim/simp.c $(wildcard $(SRC)/*.h)
 	@$(CC) $(CPPFLAGS) $(CFLAGS) -c -o $@ $<
